@@ -1,3 +1,3 @@
 #!/bin/sh
 # replays this counterexample against the real build
-cd /tmp/seedonly_C08e_17849 && VERIF_SCRIPT=/verif/replays/C08/VHarnessWalletReceiveDLEQ_a3177741_0/script.json VERIF_RAW_SALT=0 GOFLAGS=-mod=mod GOPROXY=off go test -vet=off -count=1 -overlay /verif/replays/C08/VHarnessWalletReceiveDLEQ_a3177741_0/overlay.json -run ^TestVerifReplay_VHarnessWalletReceiveDLEQ$ -v ./wallet
+cd /tmp/seedrepo_C08e && VERIF_SCRIPT=/verif/replays/C08/VHarnessWalletReceiveDLEQ_a3177741_0/script.json VERIF_RAW_SALT=0 GOFLAGS=-mod=mod GOPROXY=off go test -vet=off -count=1 -overlay /verif/replays/C08/VHarnessWalletReceiveDLEQ_a3177741_0/overlay.json -run ^TestVerifReplay_VHarnessWalletReceiveDLEQ$ -v ./wallet
